@@ -318,6 +318,10 @@ class RegSetModel:
             if kind == "branch":
                 ap.facts.append(x)
                 ap.events.append(("branch", x))
+                cm = dict(ap.env.get("$cond") or {})
+                cm[x[0].id] = x[1]
+                ap.env = dict(ap.env)
+                ap.env["$cond"] = cm
                 try:
                     tv = truth_of(ap, x[0])
                 except Exception:
